@@ -248,9 +248,23 @@ func (r *Result) budgetMatches(t *Tables, used map[string]bool, open []int) map[
 		return out
 	}
 	taken := map[string]bool{}
+	// an entry "<obligation>@*" stands for one obligation at whichever caller its requirement
+	// surfaces: once it is taken over by a renamed obligation, it covers that obligation at its
+	// other callers too
+	starFor := map[string]Reviewed{} // obligation key up to '@' -> the @* entry it took
+	originOf := func(key string) string {
+		if i := strings.Index(key, "@"); i > 0 {
+			return key[:i]
+		}
+		return key
+	}
 	for _, i := range open {
 		rule, fn, kind, hasAt, ok := keyParts(r.Obs[i].Key)
 		if !ok {
+			continue
+		}
+		if e, again := starFor[originOf(r.Obs[i].Key)]; again && hasAt {
+			out[i] = e
 			continue
 		}
 		for _, e := range t.Reviewed {
@@ -273,6 +287,9 @@ func (r *Result) budgetMatches(t *Tables, used map[string]bool, open []int) map[
 			if (efn == fn && ekind == kind) || (!live[efn] && ekind == kind) || extracted {
 				taken[e.Key] = true
 				out[i] = e
+				if strings.HasSuffix(e.Key, "@*") && hasAt {
+					starFor[originOf(r.Obs[i].Key)] = e
+				}
 				break
 			}
 		}
